@@ -297,6 +297,11 @@ func hostileContainers() map[string][]byte {
 		b, _ := w.ToCar()
 		return b
 	}()
+	for name, l := range map[string]uint64{"2^63": 1 << 63, "2^63+2^20": 1<<63 + 1<<20, "2^64-1": 1<<64 - 1, "2^63-1": 1<<63 - 1, "2^32": 1 << 32, "2^32+5": 1<<32 + 5} {
+		out["car-section-"+name] = append(append([]byte{}, hdr...), vi(l)...)
+		out["car-header-"+name] = vi(l)
+		out["car-section-"+name+"-with-bytes"] = append(append(append([]byte{}, hdr...), vi(l)...), bytes.Repeat([]byte{1}, 64)...)
+	}
 	out["car-section-2^31"] = append(append([]byte{}, hdr...), vi(1<<31)...)
 	out["car-section-2^62"] = append(append([]byte{}, hdr...), vi(1<<62)...)
 	out["car-section-33MiB"] = append(append([]byte{}, hdr...), vi(33<<20)...)
@@ -373,6 +378,7 @@ func init() {
 			}
 		}
 		for _, txt := range []string{strings.Repeat(".a", 200000), "." + strings.Repeat("[0]", 100000), "." + strings.Repeat("[", 100000), `.["` + strings.Repeat("x", 1000000) + `"]`,
+			`.["a\"b"]`, `.foo["\""].bar`, `.["a\"b`, `.["\\"]`, `.["\\\""]`, `.["` + strings.Repeat(`\"`, 1000) + `"]`, `.a["b\`, `."\"`, `.[\"a"]`, `.["a"\]`,
 			".[" + strings.Repeat("9", 5000) + "]", ".a[" + strings.Repeat("1", 30) + ":]", strings.Repeat(".", 100000), "." + strings.Repeat("?", 100000), ".\"", `.["`, `.["]`} {
 			record(epByName(eps, "selector.Parse+Select"), "hostile-text", "selector", []byte(txt))
 		}
